@@ -3237,7 +3237,7 @@ pub fn gen_cases(topic: &str, seed: u64, n: usize, path: &str) -> Result<(), Str
             }
             // C12: repeats, prints, threads
             "pure" => json!({"topic":"pure","oracle":true,"wt":true,"src":src,"docs":docs,
-                             "plan":{"tri":false,"scope":"sw","sws":some_sws,"expr":true,"repeat":3,"threads":4,"again":true,"reopt":true,
+                             "plan":{"tri":false,"scope":"sw","sws":some_sws,"expr":true,"repeat":3,"threads":4,"again":true,"reopt":true,"via_file":true,
                                      "lockstep": if shape == 2 || shape == 3 || g.r.chance(1, 8) { 16 } else { 0 }}}),
             // C13: validate() against the rule's own examples
             "val" => {
@@ -3332,7 +3332,7 @@ pub fn gen_cases(topic: &str, seed: u64, n: usize, path: &str) -> Result<(), Str
                     // document-start marker, a comment, an anchor and alias on an example (see run.rs, `spell`): the value path
                     // loads the value that this very text parses to, and both paths must agree (C14, second sentence)
                     if !dup && g.r.chance(1, 8) {
-                        c["spell"] = json!(*g.r.pick(&["nullex", "numid", "boolid", "nullid", "docstart", "comment", "fltid"][..]));
+                        c["spell"] = json!(*g.r.pick(&["nullex", "numid", "boolid", "nullid", "docstart", "comment", "fltid", "mergeid"][..]));
                         c["wt"] = json!(false);
                     }
                     c
